@@ -102,6 +102,7 @@ type Exec struct {
 	specFuel     int
 	usesLenMemo  map[string]bool
 	recMemo      map[string]bool
+	closureIDs   map[*ClosureRef]int64
 }
 
 func (x *Exec) fresh(base string) string {
@@ -564,9 +565,56 @@ func (x *Exec) heapLoad(st *State, p PtrV) Value {
 		return p.LV.Load(x, st)
 	}
 	v := x.fromLeaves(p.Elem, "", func(li leafInfo) *Term {
+		if li.Kind == "off" {
+			// views stored in the heap are normalised to offset 0 (see rebase)
+			return IntLit(0)
+		}
 		return Select(st.heapArr(p.Prefix+li.Path, li.Sort), p.Addr)
 	})
 	x.assumeLoaded(st, v)
+	return v
+}
+
+func isZeroLit(t *Term) bool { return t.Op == "int" && t.Int.Sign() == 0 }
+
+// rebase normalises every string / slice view inside v to offset 0 by
+// introducing fresh arrays that agree with the old ones on the viewed range.
+// Values are stored in the heap and in maps in this form, so that quantified
+// facts about stored sequences index their arrays by the bound variable alone.
+func (x *Exec) rebase(st *State, v Value) Value {
+	switch vv := v.(type) {
+	case StrV:
+		if isZeroLit(vv.Off) {
+			return vv
+		}
+		arr := Var(x.fresh("rb"), SArr)
+		k := x.qvar("rb")
+		st.assumeRaw(Forall([]*Term{k}, Implies(And(Le(IntLit(0), k), Lt(k, vv.Len)), Eq(Select(arr, k), Select(vv.Arr, Add(vv.Off, k))))))
+		return StrV{Arr: arr, Off: IntLit(0), Len: vv.Len}
+	case SliceV:
+		if isZeroLit(vv.Off) {
+			return vv
+		}
+		ns := SliceV{Elem: vv.Elem, Leaves: map[string]*Term{}, Order: vv.Order, Off: IntLit(0), Len: vv.Len, Base: vv.Base}
+		for _, p := range vv.Order {
+			arr := Var(x.fresh("rb"+sanitize(p)), vv.Leaves[p].Sort)
+			k := x.qvar("rb")
+			st.assumeRaw(Forall([]*Term{k}, Implies(And(Le(IntLit(0), k), Lt(k, vv.Len)), Eq(Select(arr, k), Select(vv.Leaves[p], Add(vv.Off, k))))))
+			ns.Leaves[p] = arr
+		}
+		return ns
+	case StructV:
+		changed := false
+		n := StructV{Type: vv.Type, Names: vv.Names, F: map[string]Value{}}
+		for _, f := range vv.Names {
+			n.F[f] = x.rebase(st, vv.F[f])
+			if fmt.Sprintf("%p", n.F[f]) != fmt.Sprintf("%p", vv.F[f]) {
+				changed = true
+			}
+		}
+		_ = changed
+		return n
+	}
 	return v
 }
 
@@ -582,7 +630,9 @@ func (x *Exec) assumeLoaded(st *State, v Value) {
 			if k, ok := basicIntKind(li.Basic); ok {
 				st.assumeRaw(inRange(k, t))
 			}
-		case "len", "off", "ptr", "map", "opaque", "func", "base":
+		case "len", "off":
+			st.assumeRaw(And(Le(IntLit(0), t), Le(t, IntLit(1<<40))))
+		case "ptr", "map", "opaque", "func", "base":
 			st.assumeRaw(Le(IntLit(0), t))
 		}
 	})
@@ -629,12 +679,16 @@ func (x *Exec) heapStore(st *State, p PtrV, v Value) {
 		p.LV.Store(x, st, v)
 		return
 	}
+	v = x.rebase(st, v)
 	var ls []struct {
 		Path string
 		T    *Term
 	}
 	x.leavesOf(v, "", &ls)
 	for _, l := range ls {
+		if l.T.Sort == SInt && strings.HasSuffix(l.Path, ".off") {
+			continue // always 0 after rebase
+		}
 		key := p.Prefix + l.Path
 		arr := st.heapArr(key, l.T.Sort)
 		st.heap[key] = Store(arr, p.Addr, l.T)
@@ -710,6 +764,9 @@ func (x *Exec) mapGet(st *State, m MapV, key *Term) (Value, *Term) {
 	pres := Select(Select(st.heapArr(ks+"#present", ArrOf(SBool)), m.ID), key)
 	zero := x.leafMap(x.zeroValue(m.Type.Elem()))
 	v := x.fromLeaves(m.Type.Elem(), "", func(li leafInfo) *Term {
+		if li.Kind == "off" {
+			return IntLit(0)
+		}
 		stored := Select(Select(st.heapArr(ks+li.Path, ArrOf(li.Sort)), m.ID), key)
 		return Ite(pres, stored, zero[li.Path])
 	})
@@ -740,12 +797,16 @@ func (x *Exec) mapSet(st *State, m MapV, key *Term, v Value) {
 	st.heap[ks+"#present"] = Store(presArr, m.ID, Store(Select(presArr, m.ID), key, TTrue))
 	card := st.heapArr(ks+"#card", SInt)
 	st.heap[ks+"#card"] = Store(card, m.ID, Add(Select(card, m.ID), Ite(was, IntLit(0), IntLit(1))))
+	v = x.rebase(st, v)
 	var ls []struct {
 		Path string
 		T    *Term
 	}
 	x.leavesOf(v, "", &ls)
 	for _, l := range ls {
+		if l.T.Sort == SInt && strings.HasSuffix(l.Path, ".off") {
+			continue
+		}
 		k := ks + l.Path
 		arr := st.heapArr(k, ArrOf(l.T.Sort))
 		st.heap[k] = Store(arr, m.ID, Store(Select(arr, m.ID), key, l.T))
@@ -1179,6 +1240,13 @@ func (x *Exec) binop(fr *Frame, st *State, n ast.Node, op token.Token, va, vb Va
 
 func (x *Exec) asTerm(v Value) *Term {
 	switch vv := v.(type) {
+	case FuncV:
+		if vv.Sym != nil {
+			return vv.Sym
+		}
+		return x.closureID(vv)
+	case MapV:
+		return vv.ID
 	case IntV:
 		return vv.T
 	case OpaqueV:
@@ -1215,7 +1283,7 @@ func (x *Exec) strConcat(st *State, a, b StrV) StrV {
 	st.assumeRaw(Forall([]*Term{i}, Implies(And(Le(IntLit(0), i), Lt(i, a.Len)), Eq(Select(arr, i), x.strAt(a, i)))))
 	x.quantN++
 	j := Var(fmt.Sprintf("qi_%d", x.quantN), SInt)
-	st.assumeRaw(Forall([]*Term{j}, Implies(And(Le(IntLit(0), j), Lt(j, b.Len)), Eq(Select(arr, Add(a.Len, j)), x.strAt(b, j)))))
+	st.assumeRaw(Forall([]*Term{j}, Implies(And(Le(a.Len, j), Lt(j, Add(a.Len, b.Len))), Eq(Select(arr, j), x.strAt(b, Sub(j, a.Len))))))
 	return StrV{Arr: arr, Off: IntLit(0), Len: n}
 }
 
@@ -1629,4 +1697,20 @@ func sortedKeys[V any](m map[string]V) []string {
 	}
 	sort.Strings(ks)
 	return ks
+}
+
+// closureID gives statically known closures a stable non-nil identity.
+func (x *Exec) closureID(f FuncV) *Term {
+	if f.Closure == nil {
+		return IntLit(0)
+	}
+	if x.closureIDs == nil {
+		x.closureIDs = map[*ClosureRef]int64{}
+	}
+	id, ok := x.closureIDs[f.Closure]
+	if !ok {
+		id = int64(700000 + len(x.closureIDs))
+		x.closureIDs[f.Closure] = id
+	}
+	return IntLit(id)
 }
